@@ -54,6 +54,9 @@ pub enum SeedSpec {
     /// one small box with a count field set to a few thousand, replicated a few thousand times
     /// as siblings and followed by as many small filler boxes inside the same parent
     SiblingWalk { seed: u64 },
+    /// muxer output (moov last) in which child `k` of the last track's sample table box is moved
+    /// to the end: every table in turn is the very last box of the file
+    MuxRotated { seed: u64, k: u8 },
 }
 
 impl SeedSpec {
@@ -77,6 +80,7 @@ impl SeedSpec {
             SeedSpec::MetaAll { .. } => "meta_all",
             SeedSpec::HopChain { .. } => "hop_chain",
             SeedSpec::SiblingWalk { .. } => "sibling_walk",
+            SeedSpec::MuxRotated { .. } => "mux_rotated",
         }
     }
 }
@@ -184,6 +188,28 @@ pub fn relocate_moov_first(img: &[u8]) -> Option<Vec<u8>> {
     let mut out = img[..top[0].end()].to_vec();
     out.extend_from_slice(&m);
     out.extend_from_slice(&img[top[1].start..top[1].end()]);
+    Some(out)
+}
+
+/// Moves child `k` (mod the number of children) of the last `stbl` of the image to the end of
+/// that box. Sizes do not change; for muxer output (moov last, stbl last in minf / mdia / trak)
+/// the moved table becomes the final box of the file.
+pub fn rotate_last_stbl(img: &[u8], k: usize) -> Option<Vec<u8>> {
+    let nodes = walk(img);
+    let si = (0..nodes.len()).rev().find(|i| nodes[*i].is(b"stbl"))?;
+    let kids: Vec<&Node> = nodes.iter().filter(|n| n.parent == Some(si)).collect();
+    if kids.len() < 2 {
+        return None;
+    }
+    let c = kids[k % kids.len()];
+    let stbl_end = nodes[si].end();
+    if c.end() > stbl_end || stbl_end > img.len() {
+        return None;
+    }
+    let mut out = img[..c.start].to_vec();
+    out.extend_from_slice(&img[c.end()..stbl_end]);
+    out.extend_from_slice(&img[c.start..c.end()]);
+    out.extend_from_slice(&img[stbl_end..]);
     Some(out)
 }
 
@@ -1012,6 +1038,11 @@ pub fn build(spec: &SeedSpec) -> SeedImage {
         SeedSpec::MetaAll { seed } => SeedImage { bytes: meta_all_image(*seed), init_len: None },
         SeedSpec::HopChain { seed } => SeedImage { bytes: hop_chain_image(*seed), init_len: None },
         SeedSpec::SiblingWalk { seed } => SeedImage { bytes: sibling_walk_image(*seed), init_len: None },
+        SeedSpec::MuxRotated { seed, k } => {
+            let b = mux_bytes(&small_scenario(*seed));
+            let r = rotate_last_stbl(&b, *k as usize).unwrap_or(b);
+            SeedImage { bytes: r, init_len: None }
+        }
         SeedSpec::Scale { seed } => {
             let (b, l) = scale_image(*seed);
             SeedImage { bytes: b, init_len: l }
@@ -1050,7 +1081,14 @@ pub fn gen_spec(r: &mut Rng) -> SeedSpec {
     match r.below(30) {
         28 | 29 => SeedSpec::Hybrid { seed: r.below(4096) },
         20..=25 => SeedSpec::Grammar { seed: r.below(1 << 40) },
-        26 | 27 => SeedSpec::MuxShuffled { seed: r.below(4096) },
+        26 => SeedSpec::MuxShuffled { seed: r.below(4096) },
+        27 => {
+            if r.chance(1, 2) {
+                SeedSpec::MuxShuffled { seed: r.below(4096) }
+            } else {
+                SeedSpec::MuxRotated { seed: r.below(4096), k: r.below(8) as u8 }
+            }
+        }
         0 | 1 => SeedSpec::Canned("minimal.mp4".into()),
         2 => SeedSpec::Canned("extended_audio_object_type.mp4".into()),
         3 => {
@@ -1108,6 +1146,11 @@ mod tests {
             }
             let meta = meta_image(seed);
             assert_eq!(all_samples(&meta).expect("meta variant opens"), want, "meta seed {seed}");
+            for k in 0..8 {
+                if let Some(rot) = rotate_last_stbl(&base, k) {
+                    assert_eq!(all_samples(&rot).expect("rotated opens"), want, "rotated seed {seed} k {k}");
+                }
+            }
             if let Some(sh) = shuffle_chunks(&base, seed) {
                 assert_eq!(all_samples(&sh).expect("shuffled opens"), want, "shuffled seed {seed}");
                 if sh != base {
@@ -1472,8 +1515,54 @@ fn g_moof(r: &mut Rng, seq: u32, track_ids: &[u32]) -> Vec<u8> {
 /// "Scale" images: many small structures of the same kind (tens to hundreds of tiny traks,
 /// thousands of empty movie fragments, long runs of metadata items, hundreds of sample entries):
 /// behaviour that is quadratic in the number of boxes only shows at this size.
+/// "Traf storm": a track whose moov holds thousands of variable-size samples in ONE chunk and
+/// which is continued by one movie fragment with tens of thousands of track fragments (most of
+/// them without a run, some with a one-sample run of size 0). Whatever is done per traf - at
+/// open or per sample read - must not be multiplied by the number of trafs or by the length of
+/// the chunk. About 1 MB.
+pub fn traf_storm_image(seed: u64) -> (Vec<u8>, Option<usize>) {
+    let mut r = Rng::new(seed ^ 0x57A4);
+    let k = 4000 + r.below(8000) as u32;
+    let t = 20_000 + r.below(16_000) as u32;
+    let mut ops = vec![Op::AddTrack(TrackCfg { kind: Kind::Ttxt, track_type: Kind::Ttxt.natural_track_type(), timescale: 1000, language: "und".into(), width: 0, height: 0, sps: vec![], pps: vec![], aac_profile: 2, freq_index: 3, chan_conf: 2, bitrate: 0 })];
+    for i in 0..k {
+        // duration 0: the samples never complete a chunk, write_end flushes them as one
+        ops.push(Op::Write { track_id: 1, s: SampleW { payload: Payload::Stamp { len: 1 + (i % 3), tag: i + 1 }, duration: 0, offset: 0, sync: true, start_time: 0 } });
+    }
+    ops.push(Op::End);
+    let sc = MuxScenario { cfg: MovieCfg { major: *b"isom", minor: 512, compat: vec![], timescale: 1000 }, ops, start_pos: 0, io: IoKnobs::plain(), preexisting: 0, fault: None, fault_len: 0, fault_api: None };
+    let base = mux_bytes(&sc);
+    let nodes = walk(&base);
+    let Some(moov) = nodes.iter().find(|n| n.depth == 0 && n.is(b"moov")) else { return (base, None) };
+    if moov.end() != base.len() {
+        return (base, None);
+    }
+    let mvex = bx(b"mvex", &full(b"trex", 0, 0, &cat(&[&u32b(1), &u32b(1), &u32b(0), &u32b(0), &u32b(0)])));
+    let mut out = base.clone();
+    out.extend_from_slice(&mvex);
+    let newsize = (moov.size + mvex.len()) as u32;
+    out[moov.start..moov.start + 4].copy_from_slice(&newsize.to_be_bytes());
+    let init_len = out.len();
+    let mut trafs = Vec::with_capacity(t as usize * 26);
+    let every = 50 + r.below(200) as u32;
+    for i in 0..t {
+        let tfhd = full(b"tfhd", 0, 0x020000, &u32b(1));
+        if i % every == every - 1 {
+            let trun = full(b"trun", 0, 0x201, &cat(&[&u32b(1), &u32b(0), &u32b(0)]));
+            trafs.extend(bx(b"traf", &cat(&[&tfhd, &trun])));
+        } else {
+            trafs.extend(bx(b"traf", &tfhd));
+        }
+    }
+    out.extend(bx(b"moof", &cat(&[&full(b"mfhd", 0, 0, &u32b(1)), &trafs])));
+    (out, Some(init_len))
+}
+
 pub fn scale_image(seed: u64) -> (Vec<u8>, Option<usize>) {
     let mut r = Rng::new(seed ^ 0x5CA1E);
+    if r.chance(1, 5) {
+        return traf_storm_image(seed);
+    }
     // valid building blocks from the real muxer: ftyp, mdat and the trak boxes of a small history
     let base = mux_bytes(&small_scenario(seed));
     let nodes = walk(&base);
